@@ -43,9 +43,14 @@ type vfConn struct {
 	first     [2]byte
 	written   [][]byte
 	writeErr  bool
+	closeErr  bool  // Close reports an error (connection already broken underneath)
+	reqs      []int // len(b) of every Read call
+	before    []int // bytes delivered before that call
 }
 
 func (c *vfConn) Read(b []byte) (int, error) {
+	c.reqs = append(c.reqs, len(b))
+	c.before = append(c.before, c.total)
 	if c.readsLeft == 0 || vf.Bool() {
 		return 0, errVfIO
 	}
@@ -74,7 +79,13 @@ func (c *vfConn) Write(b []byte) (int, error) {
 	return len(b), nil
 }
 
-func (c *vfConn) Close() error                       { vf.Event("conn.close"); return nil }
+func (c *vfConn) Close() error {
+	vf.Event("conn.close")
+	if c.closeErr {
+		return errVfIO
+	}
+	return nil
+}
 func (c *vfConn) LocalAddr() net.Addr                { return nil }
 func (c *vfConn) RemoteAddr() net.Addr               { return nil }
 func (c *vfConn) SetDeadline(t time.Time) error      { return nil }
